@@ -201,6 +201,28 @@ func runC17(c *Ctx) error {
 			w.Count("entry.url")
 		}
 	}
+	// ---- one field in an either group AND a botheq group (first member of both); group ids that contain the name of
+	// the other kind
+	for i, c := range []struct {
+		v    WG2
+		exps []expE
+	}{
+		{WG2{P: "x", Q: "x", X: "v"}, []expE{{"G", "", `either:"WG2.A", "WG2.B"`}}},
+		{WG2{A: "a", C: "c", P: "p", Q: "q"}, []expE{{"G", "", `botheq:"WG2.A", "WG2.C"`}, {"G", "", `botheq:"WG2.P", "WG2.Q"`}, {"G", "", `either:"WG2.X", "WG2.Y"`}}},
+		{WG2{A: "a", B: "b", C: "a", P: "p", Q: "p", Y: "y"}, nil},
+		{WG2{B: "b", C: "c", P: "p", Q: "p", X: "x", Y: "y"}, []expE{{"G", "", `botheq:"WG2.A", "WG2.C"`}}},
+		{WG2{A: "a", C: "a", P: "p", Q: ""}, []expE{{"G", "", `botheq:"WG2.P", "WG2.Q"`}, {"G", "", `either:"WG2.X", "WG2.Y"`}}},
+	} {
+		v := c.v
+		spec := "SNil"
+		if len(c.exps) > 0 {
+			spec = "SExpect false " + galExps(c.exps)
+		}
+		call := &walkCall{Entry: "struct", Src: &v}
+		term, desc := call.caseTerm([]string{spec, "SNoPanic"})
+		w.Add(term, desc, fmt.Sprintf("two-kinds-one-field:%d", i))
+		w.Count("directed.two-kinds")
+	}
 	return w.Flush()
 }
 
